@@ -68,10 +68,76 @@ def model_values(ob):
     return out
 
 
+def discharge_forked(eng, ob, use_cvc5, hard_s):
+    """Discharge one obligation in a forked child with a hard wall-clock limit.  z3 5.1 occasionally spins inside the sequence
+    solver without honouring its timeout, its rlimit or Z3_interrupt; the only reliable stop is to kill the process.  A killed
+    child leaves the obligation undecided (never a violation)."""
+    import select
+    import signal
+    r, w = os.pipe()
+    pid = os.fork()
+    if pid == 0:
+        code = 0
+        try:
+            os.close(r)
+            eng.discharge(ob, use_cvc5=use_cvc5)
+            payload = {"verdict": ob.verdict, "backend": ob.backend, "time": ob.time,
+                       "model": model_values(ob) if ob.verdict == "sat" and ob.kind != "canary" else None}
+            data = json.dumps(payload, default=str).encode()
+            while data:
+                n = os.write(w, data)
+                data = data[n:]
+        except BaseException:      # noqa: BLE001
+            code = 1
+        finally:
+            os._exit(code)
+    os.close(w)
+    t0 = time.time()
+    chunks = []
+    killed = False
+    while True:
+        left = hard_s - (time.time() - t0)
+        if left <= 0:
+            killed = True
+            break
+        ready, _, _ = select.select([r], [], [], min(left, 5.0))
+        if ready:
+            b = os.read(r, 65536)
+            if not b:
+                break
+            chunks.append(b)
+    if killed:
+        try:
+            os.kill(pid, signal.SIGKILL)
+        except OSError:
+            pass
+    os.close(r)
+    try:
+        os.waitpid(pid, 0)
+    except OSError:
+        pass
+    if not killed and chunks:
+        try:
+            d = json.loads(b"".join(chunks).decode())
+            ob.verdict, ob.backend, ob.time = d["verdict"], d["backend"], d["time"]
+            return d["model"]
+        except ValueError:
+            pass
+    if killed and not getattr(ob, "z3_seed", 0):
+        # one more attempt with another solver seed: the spin depends on the search order, not on the obligation
+        ob.z3_seed = 7
+        return discharge_forked(eng, ob, use_cvc5, hard_s)
+    ob.verdict, ob.backend, ob.time = "unknown", ("killed-after-%ds" % int(hard_s)) if killed else "solver-process-failed", time.time() - t0
+    return None
+
+
 def _verify_one(args):
     qualname, timeout_ms, use_cvc5, mutate = args[:4]
     shard, nshards = (args[4], args[5]) if len(args) > 5 else (0, 1)
     try:
+        if os.environ.get("PYVC_HANGLOG"):
+            import faulthandler
+            faulthandler.dump_traceback_later(120, repeat=True, file=open(os.environ["PYVC_HANGLOG"], "a"))
         import z3  # noqa: F401
         from pyvc.verifier import Engine
         from pyvc.source import Repo
@@ -91,16 +157,17 @@ def _verify_one(args):
         for oi, ob in enumerate(rep.obligations):
             if oi % nshards != shard:
                 continue
+            model = None
             if time.time() - t_start > func_budget:
                 # solver budget of this function is used up: the remaining obligations stay undecided (never a violation)
                 ob.verdict, ob.backend, ob.time = "unknown", "budget-exhausted", 0.0
             else:
-                eng.discharge(ob, use_cvc5=use_cvc5)
+                model = discharge_forked(eng, ob, use_cvc5, 4.0 * timeout_ms / 1000.0 + 30.0)
             obs.append({
                 "name": ob.name, "kind": ob.kind, "props": ob.props, "func": ob.func, "verdict": ob.verdict,
                 "backend": ob.backend, "time": round(ob.time, 4), "note": ob.note, "variant": getattr(ob, "variant", 0),
                 "path": "".join("T" if d else "F" for d in (ob.path or [])),
-                "model": model_values(ob) if ob.verdict == "sat" and ob.kind != "canary" else None,
+                "model": model if ob.verdict == "sat" and ob.kind != "canary" else None,
                 "goal": (str(ob.goal)[:300] if ob.kind != "canary" else "False"),
                 "npc": len(ob.pc),
             })
@@ -110,6 +177,55 @@ def _verify_one(args):
     except Exception as e:      # noqa: BLE001
         return {"func": qualname, "status": "crash", "reason": f"{type(e).__name__}: {e}\n{traceback.format_exc()[-1500:]}",
                 "paths": 0, "time": 0, "digest": None, "obligations": [], "assumptions": [], "variants": 0}
+
+
+def _job_child(job, conn):
+    try:
+        conn.send(_verify_one(job))
+    finally:
+        conn.close()
+
+
+def run_jobs(jobs, procs, deadline_s):
+    """every job in its own forked process, at most `procs` at a time, each killed at its deadline (symbolic execution itself can
+    get stuck in a solver call); a killed job reports status 'timeout' -- undecided, never a violation"""
+    ctx = mp.get_context("fork")
+    pending = list(enumerate(jobs))
+    running = {}
+    out = [None] * len(jobs)
+    while pending or running:
+        while pending and len(running) < procs:
+            i, job = pending.pop(0)
+            pr, pw = ctx.Pipe(duplex=False)
+            proc = ctx.Process(target=_job_child, args=(job, pw))
+            proc.start()
+            pw.close()
+            running[i] = (proc, pr, time.time(), job)
+        done = []
+        for i, (proc, pr, t0, job) in running.items():
+            if pr.poll(0.05):
+                try:
+                    out[i] = pr.recv()
+                except (EOFError, OSError):
+                    out[i] = None
+                proc.join(10)
+                done.append(i)
+            elif not proc.is_alive():
+                proc.join(1)
+                done.append(i)
+            elif time.time() - t0 > deadline_s:
+                proc.kill()
+                proc.join(5)
+                out[i] = {"func": job[0], "status": "timeout", "reason": f"killed after {int(deadline_s)}s (solver stuck during symbolic execution)",
+                          "paths": 0, "time": deadline_s, "digest": None, "obligations": [], "assumptions": [], "variants": 0}
+                done.append(i)
+        for i in done:
+            proc, pr, t0, job = running.pop(i)
+            pr.close()
+            if out[i] is None:
+                out[i] = {"func": job[0], "status": "crash", "reason": "worker process died without a result", "paths": 0, "time": 0,
+                          "digest": None, "obligations": [], "assumptions": [], "variants": 0}
+    return out
 
 
 def verify_functions(qualnames, timeout_ms=10000, use_cvc5=True, procs=None, mutate=None, shards=None):
@@ -122,12 +238,7 @@ def verify_functions(qualnames, timeout_ms=10000, use_cvc5=True, procs=None, mut
         for k in range(n):
             jobs.append((q, timeout_ms, use_cvc5, mutate, k, n))
     procs = procs or min(14, max(1, len(jobs)))
-    if procs == 1 or len(jobs) == 1:
-        raw = [_verify_one(j) for j in jobs]
-    else:
-        ctx = mp.get_context("fork")
-        with ctx.Pool(procs) as pool:
-            raw = pool.map(_verify_one, jobs, chunksize=1)
+    raw = run_jobs(jobs, procs, float(os.environ.get("PYVC_JOB_DEADLINE_S", "1500")))
     merged = {}
     for r in raw:
         m = merged.get(r["func"])
@@ -144,7 +255,18 @@ def verify_functions(qualnames, timeout_ms=10000, use_cvc5=True, procs=None, mut
     return [merged[q] for q in qualnames if q in merged]
 
 
+def pin_hash_seed():
+    """string hashing decides the iteration order of sets of names, hence the order in which terms are built and asserted, hence
+    the solver's search: pin it so that every run of the same tree asks the solver the same questions in the same order"""
+    if os.environ.get("PYTHONHASHSEED") != "0":
+        os.environ["PYTHONHASHSEED"] = "0"
+        os.execv(sys.executable, [sys.executable] + sys.argv)
+
+
 if __name__ == "__main__":
+    if os.environ.get("PYTHONHASHSEED") != "0":
+        os.environ["PYTHONHASHSEED"] = "0"
+        os.execv(sys.executable, [sys.executable, "-m", "pyvc.run"] + sys.argv[1:])
     res = verify_functions(sys.argv[1:], procs=1)
     for r in res:
         print(r["func"], r["status"], r["reason"] or "", "paths", r["paths"], "time", r["time"])
